@@ -247,3 +247,41 @@ claim("C19", "other",
       "token (R-PROTO); index base/sort rules (R-IDX); mask/selection structure (R-SEL); exact algebra of block offsets and cell "
       "entries (R-ALG); frozen-record store rule (R-FROZEN)",
       "DESIGN.md section 4, C19")
+
+claim("C09", "other",
+      "Decides the form of every stage of boo_3d for all inputs. qlm_Qlm (unweighted and weighted configuration): bond vectors = "
+      "remove_pbc(positions[columns 1..cn_i of row i] - positions[i], the frame's cell, the instance mask); polar = "
+      "arccos(z/|r|) and azimuth = arctan2(y, x) of that same imaged vector; sph_harm_l is called as (self.l, polar[j], "
+      "azimuth[j]) by parameter role, j over range(cn_i), accumulated into row i of complex zeros (N, 2l+1); exactly one "
+      "normalisation - unweighted: / cn once per frame after the particle loop; weighted: weights / row sum taken of the table "
+      "without its count column, entry j of the weight row for bond j, no second division; coarse graining: copy of the "
+      "normalised local vectors + local vector of each listed neighbour (column j+1), / (1+cn) once; (local, coarse) returned "
+      "and stored in that order. ql_Ql = sqrt(4 pi/(2l+1) sum_m |q|^2), s_ij = Re sum_m q_i conj q_j / (|q_i||q_j|) over the "
+      "neighbours of i in the same frame, count of s_ij > c, w_l = sum w3j Re prod q[m+l] over the Wigner table, w-hat = "
+      "w/(sum|q|^2)^(3/2), each on the vectors selected by coarse_graining; Wignerindex: full cube -l..l, m1+m2+m3 = 0, rows "
+      "[m1,m2,m3,w3j(l l l; m1 m2 m3)]; spatial correlation = frame average of conditional_gr(frame n, vectors of frame n, "
+      "'vector', mask); time correlation scaled by 4 pi/(2l+1) then by lag 0, CSV after normalisation. Not decided: reference "
+      "values on perfect lattices, 0 <= q_l <= 1 and |s_ij| <= 1 as numbers (consequences of the forms), rotation invariance "
+      "(a theorem about Y_lm), sympy's Wigner symbol values.",
+      "Trusted: Y_lm tables and dispatcher (decided under C08), remove_pbc (C02), read_neighbors (C05), conditional_gr (C13), "
+      "time_correlation (C14); numpy semantics; idiom tables of pmsa/checks/c09.py and boolib.py.",
+      "angle-role rules on the value graph (R-ANGLE), call-site roles of remove_pbc (R-PBC), single-normalisation and formula "
+      "identities by exact algebra with uninterpreted reductions (R-ALG), neighbour/weight column alignment (R-ALIGN, R-IDX), "
+      "loop-domain rules incl. the Wigner table (R-LOOPDOM), import resolution (R-API)",
+      "DESIGN.md section 4, C09")
+
+claim("C10", "other",
+      "Decides the form of boo_2d for all inputs: bond vectors = remove_pbc(positions[columns 1..cn_i of row i] - positions[i], "
+      "the frame's cell, the instance mask); theta = arctan2(y, x) of that vector; kernel exp(i l theta) with the instance's l "
+      "(exact identity of the exponent); unweighted value = mean over the bonds; weighted value = sum of w_k exp(i l theta_k) "
+      "with w = columns 1..cn_i of row i of the weight table divided by sum |w| and no further division; both arms use the "
+      "same angle expression; value stored at [frame, particle] of complex zeros (T, N) which is returned and kept as "
+      "ParticlePhi; time average: the complex array, or |psi| and arg psi separately recombined as <|psi|> exp(i <arg psi>), "
+      "with the trajectory/period/dt forwarded; spatial correlation = frame average of conditional_gr(frame n, psi[n], scalar "
+      "kind, mask); time correlation of psi returned unchanged. |psi| <= 1 and the exp(i l alpha) covariance under rotation "
+      "follow from these forms in exact arithmetic and are not evaluated. Not decided: values on perfect lattices.",
+      "Trusted: remove_pbc (C02), read_neighbors (C05), time_average (C16), conditional_gr (C13), time_correlation (C14); numpy "
+      "semantics; idiom tables of pmsa/checks/c10.py and boolib.py.",
+      "angle-role rule and exact identity of the kernel exponent (R-ANGLE), call-site roles of remove_pbc (R-PBC), "
+      "normalisation forms (R-ALG), weight/neighbour slice alignment (R-ALIGN), sibling agreement of the two arms (R-SIB)",
+      "DESIGN.md section 4, C10")
